@@ -1414,6 +1414,10 @@ func sqlClauseRules(p *Prog, c *Check) {
 // successful returns hand back, as result k, one and the same term over the function's parameters,
 // t is replaced by that term with the call's arguments substituted. resolvesTo repeats it until the
 // predicate holds (up to three levels).
+// resolveFacts: facts of the asking site about results of calls (x#k == nil, x#k != nil); returns of
+// the callee that contradict them are not considered by resolveResult.
+var resolveFacts []Atom
+
 func (p *Prog) resolveResult(fi *FnInfo, t *Term, depth int) *Term {
 	if t == nil || depth > 3 {
 		return t
@@ -1441,6 +1445,21 @@ func (p *Prog) resolveResult(fi *FnInfo, t *Term, depth int) *Term {
 			return t
 		}
 		if hasErr && gfi.errIsNil(r.Results[nres-1], r, 0) == no {
+			continue
+		}
+		// what the asking site knows about this call's results
+		var conds []ResultCond
+		for _, a := range resolveFacts {
+			if a.L.K == TRes && len(a.L.Sub) == 1 && a.L.Sub[0].s == ct.s && a.R.K == TNil {
+				switch a.Op {
+				case "==":
+					conds = append(conds, ResultCond{a.L.Idx, "nil"})
+				case "!=":
+					conds = append(conds, ResultCond{a.L.Idx, "nonnil"})
+				}
+			}
+		}
+		if len(conds) > 0 && gfi.retCompatible(r, conds) == no {
 			continue
 		}
 		rt := gfi.T(r.Results[idx])
